@@ -97,10 +97,11 @@ EnumCountOK ==
     IN /\ n >= 1
        /\ RngEnumWithin(emitted[i], n)
        /\ ~RngEnumWithin(emitted[i], n - 1)
-(* OPEN FINDING (not part of the passing configs): what the design needs -  *)
-(* a range costs about one step per covered term, at most one byte carry -  *)
-(* does not hold: a last range that straddles a carry through several        *)
-(* all-ones 7-bit groups makes the byte-wise loop run BB^j steps.           *)
+(* The walk over an emitted range is short: its covered terms (< 2B) plus   *)
+(* at most one pass over the invalid values of the last byte.  (Before the  *)
+(* repair of incrementBytes this was violated - TLC gave min0 = <<0,3,1>>,   *)
+(* max0 = <<1,0,0>> for B = 4, L = 3, G = 2 - and real queries such as       *)
+(* [math.Nextafter(2,0), 2] never answered.)                                 *)
 EnumLinear ==
   \A i \in 1..Len(emitted) : RngEnumWithin(emitted[i], 2 * B + BB)
 
